@@ -6,6 +6,9 @@ import numpy as np
 
 MARKERS_FEAS = [0, False, 0.0]
 MARKERS_INFEAS = [True, 1, 0.5, 2, 1.0, 3.5]
+# violation degrees are compared by magnitude ("the solution with a smaller constraint violation is preferred"): -v and +v are
+# equally infeasible, and the objectives decide between them
+MARKERS_SIGNED = [-1.0, 1.0, -0.5, 0.5, -2, 2, -3.5, 3.5]
 
 
 def rand_float(r, lo_exp=-9, hi_exp=9, signed=True):
@@ -32,8 +35,10 @@ def cost_vector(r, m, style):
     raise ValueError(style)
 
 
-def marker_value(r, p_infeasible=0.3):
+def marker_value(r, p_infeasible=0.3, signed=True):
     if r.random() < p_infeasible:
+        if signed and r.random() < 0.25:
+            return r.choice(MARKERS_SIGNED)
         return r.choice(MARKERS_INFEAS)
     return r.choice(MARKERS_FEAS)
 
